@@ -1026,6 +1026,26 @@ def check_calls(ctx, harr, hets, paired, sub, nrec):
         feat = "rescaled" if purity and purity < 1.0 else "plain"
         cmp_vector(ctx, BAF_CLAUSE + "; purity rescaling follows its formula", f"do_call/baf/{feat}", adm, got, csub)
         ctx.stratum("do_call-" + feat)
+    # a merging filter that acts before calling (ci): the BAF of a merged segment is that of the het SNVs inside the
+    # merged segment, not an average of its pieces' BAFs
+    if len(harr):
+        cns_ci = CNA.from_rows(
+            [(c, s, e, "g", l2, 5, 1.0 + 0.5 * i, -0.1, 0.1) for i, ((c, s, e), l2) in enumerate(zip(CALL_RANGES, (0.0, 0.05, -0.05, 0.1)))],
+            columns=["chromosome", "start", "end", "gene", "log2", "probes", "weight", "ci_lo", "ci_hi"],
+        )
+        merged = [("1", 0, 100), ("2", 0, 100)]
+        out = ctx.call(lambda: cnv_call.do_call(cns_ci, harr, method="none", filters=["ci"]))
+        csub = {**sub, "method": "none", "filters": ["ci"], "ranges": CALL_RANGES}
+        if isinstance(out, Exc):
+            ctx.violation(BAF_CLAUSE, f"do_call/raises/{out.key}/ci-filter", expected="a table", observed=out, sub=csub)
+        elif "baf" not in out:
+            ctx.violation(BAF_CLAUSE, "do_call/no-baf-column/ci-filter", expected="a baf column", observed=list(out.data.columns), sub=csub)
+        else:
+            coords = [(r.chromosome, int(r.start), int(r.end)) for r in out]
+            if coords == merged:  # which segments merge is property C14's business
+                adm = expected_baf(hets, merged, None, lambda s: s["t"])
+                cmp_vector(ctx, BAF_CLAUSE + " (segments merged by the ci filter before the BAFs are taken)", "do_call/baf/merged-by-ci", adm, [py(x) for x in out["baf"]], {**csub, "segments": merged})
+                ctx.stratum("do_call-ci-merged")
     if not len(harr):
         return
     bins = [("1", 10 * i, 10 * i + 10, "g", 0.0 if i < 5 else 1.0, 1.0) for i in range(10)] + [("2", 20 * i, 20 * i + 20, "g", 0.2, 1.0) for i in range(5)]
